@@ -86,12 +86,14 @@ def random_scenarios(chk, n, pid="C01"):
         CC.check_font_pictures(chk, font, cfg, srcs, glyphs, tol, f"random scenario {k} [{flavour}]", replay, deltas=deltas)
 
 
-def coincidence_scenarios(chk, n, pid="C01"):
+def coincidence_scenarios(chk, n, pid="C01", only=None):
     """Integer-lattice axis-aligned copies (scale exactly 1 on one axis, integer scale centres) and thin-bar overflow
     fallbacks: coincidences random floats never hit."""
     for k in range(n):
         r = common.rng(pid, "lattice", k)
-        if k % 4 == 3:
+        if only == "overflow":
+            glyphs, variant = (S.thin_bar_scenario(r), dict(S.LATTICE_CONFIG)) if k % 3 == 0 else (S.tiny_copy_scenario(r), dict(S.TINY_CONFIG))
+        elif k % 4 == 3:
             glyphs, variant = S.thin_bar_scenario(r), dict(S.LATTICE_CONFIG)
         elif k % 4 == 1 and k % 8 == 1:
             glyphs, variant = S.tiny_copy_scenario(r), dict(S.TINY_CONFIG)
